@@ -1,8 +1,8 @@
 (** * C16 - No request is served beyond what the caller's token and ACL grant.
     Only statements, each closed by [exact <lemma>], with [Print Assumptions]. *)
 From Coq Require Import List String Bool NArith.
-From DH Require Import Model.Acl Model.Jwt Model.Gate Model.SecStore Model.GateSeq
-     Proofs.AclProofs Proofs.JwtProofs Proofs.GateProofs Proofs.SecStoreProofs Proofs.GateSeqProofs Check.C16Check Proofs.C16CheckProofs.
+From DH Require Import Model.Acl Model.Jwt Model.Gate Model.SecStore Model.GateSeq Model.IdCodec Model.SecApi
+     Proofs.AclProofs Proofs.JwtProofs Proofs.GateProofs Proofs.SecStoreProofs Proofs.GateSeqProofs Proofs.IdCodecProofs Check.C16Check Proofs.C16CheckProofs.
 Import ListNotations.
 Open Scope string_scope.
 
@@ -206,6 +206,47 @@ Theorem C16_refuted_verified_cache :
 Proof. exact cache_refuted. Qed.
 Print Assumptions C16_refuted_verified_cache.
 
+(** ** the ACL routes address a client by the spelling of its id in the URL *)
+
+(** if the three handlers of /security/clients/:clientid/acl read the id the same way, then for every history and
+    every spelling that the POST handler accepts: DELETE through the same spelling removes exactly what POST stored,
+    and GET through it shows nothing *)
+Theorem C16_revocation_effective : forall d fm im ops sp l id,
+  uniform d -> resolve (d_set d) sp = Some id ->
+  let s := api_run d fm im (ops ++ [SpSetAcl sp l; SpDelAcl sp]) in
+  lookup id (mem_acls s) = None /\ api_get d s sp = None.
+Proof. exact revocation_effective. Qed.
+Print Assumptions C16_revocation_effective.
+
+Theorem C16_grant_visible : forall d fm im ops sp l id,
+  uniform d -> resolve (d_set d) sp = Some id ->
+  api_get d (api_run d fm im (ops ++ [SpSetAcl sp l])) sp = Some l.
+Proof. exact grant_visible. Qed.
+Print Assumptions C16_grant_visible.
+
+(** ids made of letters, digits and - _ . ~ are their own spelling, for either way of reading the parameter *)
+Theorem C16_unreserved_ids : forall m s, all_chars unreserved s = true -> resolve m s = Some s.
+Proof. exact unreserved_resolves_to_itself. Qed.
+Print Assumptions C16_unreserved_ids.
+
+(** the repaired store is what the history denotes (set / delete / unregister as a map; restarts denote nothing) *)
+Theorem C16_store_denotes : forall ops,
+  let s := sec_run AclFileAcls InitIndependent ops in
+  mem_clients s = fst (spec_store ops) /\ mem_acls s = snd (spec_store ops).
+Proof. exact run_matches_spec. Qed.
+Print Assumptions C16_store_denotes.
+
+(** a DELETE handler that takes the raw parameter while POST and GET decode it revokes nothing for an id the caller
+    escaped more eagerly than Go would (bob%40clients): the entry stays, also across a restart *)
+Theorem C16_refuted_raw_delete :
+  let d := {| d_set := IdUnescape; d_get := IdUnescape; d_del := IdRaw |} in
+  let l := [{| ac_resource := "/datasets/*"; ac_action := "read"; ac_deny := false |}] in
+  let s := api_run d AclFileAcls InitIndependent [SpSetAcl "bob%40clients" l; SpDelAcl "bob%40clients"] in
+  ~ uniform d /\ lookup "bob@clients" (mem_acls s) = Some l /\ api_get d s "bob%40clients" = Some l
+  /\ lookup "bob@clients" (mem_acls (restart InitIndependent s)) = Some l.
+Proof. exact refuted_raw_delete. Qed.
+Print Assumptions C16_refuted_raw_delete.
+
 (** ** persistence *)
 
 (** for all histories of register / unregister / set-ACL / delete-ACL / restart, a restart is the identity on
@@ -290,4 +331,11 @@ Example C16_nonvacuous_literal_prefix :
    entry_applies {| ac_resource := "/datasets/*/changes*"; ac_action := "read"; ac_deny := false |} "/datasets/x/changes" "read",
    filter_datasets DenySkip [e] ["sdb.Animal"; "sdb2.Secret"; "sdbx"])
   = (true, false, false, false, ["sdb.Animal"]).
+Proof. vm_compute. reflexivity. Qed.
+
+(** what the pinned handlers make of a spelling: eager escapes decode, a canonical spelling is decoded by net/http and
+    then once more by the handler ('+' becomes a space, a decoded '%' is refused) *)
+Example C16_nonvacuous_spellings :
+  map (resolve IdUnescape) ["bob%40clients"; "bob@clients"; "urn%3Aclient%3A7"; "team%2Freporting"; "a%20b"; "a+b"; "a%2Bb"; "x%3ay"; "100%25"]
+  = [Some "bob@clients"; Some "bob@clients"; Some "urn:client:7"; Some "team/reporting"; Some "a b"; Some "a b"; Some "a+b"; Some "x:y"; None].
 Proof. vm_compute. reflexivity. Qed.
